@@ -26,6 +26,58 @@ def sha(t):
     return hashlib.sha256(t.encode()).hexdigest()[:16]
 
 
+def lemma_canary(text):
+    """vacuity guard for the lemma library: inject `assert(false);` at the start of the body of every `proof fn` that has one
+    (axioms and trait declarations have none).  Every such proof fn must then FAIL (dev/canary.py --lemmas)."""
+    out = []
+    i = 0
+    orig = text
+    text = strip_comments(text)          # same offsets, comments blanked
+    for m in re.finditer(r'\bproof\s+fn\s+(\w+)', text):
+        if m.start() < i:
+            continue
+        # find the end of the signature: the first `{` or `;` at depth 0 after the parameter list
+        j = text.find('(', m.end())
+        if j < 0:
+            continue
+        try:
+            k = find_matching(text, j)
+        except Exception:
+            continue
+        depth = 0
+        p = k + 1
+        body = -1
+        while p < len(text):
+            ch = text[p]
+            if ch in '([':
+                depth += 1
+            elif ch in ')]':
+                depth -= 1
+            elif ch == ';' and depth == 0:
+                break
+            elif ch == '{' and depth == 0:
+                # a `{` that opens the body: preceded by the end of requires/ensures/decreases or the signature, not by `==>`/`by`/`implies`
+                pre = text[max(0, p - 300):p].rstrip()
+                if re.search(r'(\bmatch\s+[^{};]*|\bif\s+[^{};]*|\belse)$', pre):
+                    q = find_matching(text, p)
+                    p = q + 1
+                    continue
+                body = p
+                break
+            p += 1
+        if body < 0:
+            continue
+        out.append(orig[i:body + 1] + ' assert(false); /*@LCANARY %s*/ ' % m.group(1))
+        i = body + 1
+    out.append(orig[i:])
+    return ''.join(out)
+
+
+def norm_sha(t):
+    """hash of source text modulo comments and white space (trusted-text lock: assumed functions, files outside the units)"""
+    return sha(re.sub(r'\s+', ' ', strip_comments(t)).strip())
+
+
 DROP_TRAIT_IMPLS = re.compile(
     r'^(?:core::fmt::|fmt::)?Debug$|^FromHex$|^(?:core::hash::)?Hash$|^Zeroize$|^ZeroizeOnDrop$|^DefaultIsZeroes$|^Drop$'
     r'|^serde::|^Serialize<|^Deserialize<|^(?:serde::)?(?:Serialize|Deserialize)\b')
@@ -63,6 +115,12 @@ class Unit:
     def __init__(self, cfg, contracts):
         self.cfg = cfg
         self.contracts = {c.key: c for c in contracts}
+        self.rules = {}            # rule -> count
+        self.functions = []        # per-function metadata
+        self.dropped = []          # dropped items (file, line, what, why)
+        self.local_mods = set(m[0].split('::')[0] for m in cfg['modules'] if m[0]) | set(cfg.get('prelude_modules', {}).keys())
+        self.mod_opts = {}         # options of the module being processed (see `module_entry`)
+        self.downgraded = set()    # keys emitted `assumed` here although their sidecar block says `verified` (E9)
         # cfg['strip_clauses'] = {function key: [clause names] | '*'}: clauses that do not hold in this unit's world are NOT emitted (the
         # function stays verified against the rest; callers learn nothing from a stripped clause).  '*' removes the whole block.
         # cfg['force_assumed'] = [key regex]: functions verified in ANOTHER unit against the identical (world-independent) contract and only
@@ -87,26 +145,9 @@ class Unit:
                     raise ExtractError('strip_clauses: %s has no ensures clause %r' % (k, nm))
             c.ensures = [cl for cl in c.ensures if cl.name not in names]
             c.stripped = list(names)
-        self.rules = {}            # rule -> count
-        self.functions = []        # per-function metadata
-        self.dropped = []          # dropped items (file, line, what, why)
-        self.local_mods = set(m.split('::')[0] for m, _ in cfg['modules'] if m) | set(cfg.get('prelude_modules', {}).keys())
 
     def rule(self, name, n=1):
         self.rules[name] = self.rules.get(name, 0) + n
-
-    def locate(self, rel):
-        """-> (absolute path, repo-relative name) of a module file.  `rel` is relative to cfg['root'] (the unit's own crate) or, for a
-        module taken from ANOTHER crate of the workspace, an absolute path / a path relative to the repository root (cfg['repo_root'],
-        default: two levels above cfg['root'])."""
-        cfg = self.cfg
-        repo_root = cfg.get('repo_root') or os.path.normpath(os.path.join(cfg['root'], '..', '..'))
-        if os.path.isabs(rel):
-            return rel, os.path.relpath(rel, repo_root)
-        own = os.path.join(cfg['root'], rel)
-        if os.path.exists(own):
-            return own, os.path.join(cfg['repo_prefix'], rel)
-        return os.path.join(repo_root, rel), rel
 
     def read_verif_file(self, rel):
         """a hand-written prelude/lemma file, with the unit's `prelude_rewrites` [(file, old, new)] applied (exact text, each must
@@ -144,33 +185,44 @@ class Unit:
         return first in self.local_mods
 
     # ------------------------------------------------------------------------------------------
-    def read_module(self, relpath):
-        """-> (comment-stripped source, raw source, repo-relative name).  A module taken from another crate of the workspace gets the
-        unit's `path_rewrites` [(regex, replacement)] applied (E0: `frost_core::` -> `crate::` etc.; line structure is preserved)."""
-        path, repo_rel = self.locate(relpath)
-        raw = open(path).read()
-        src = strip_comments(raw)
-        if not repo_rel.startswith(self.cfg['repo_prefix'] + '/'):
-            for rx, to in self.cfg.get('path_rewrites', ()):
-                src, k = re.subn(rx, to, src)
-                if k:
-                    self.rule('E0.foreign_path_rewritten', k)
-        return src, raw, repo_rel
+    @staticmethod
+    def module_entry(m):
+        """A `modules` entry is `(modpath, file)` (file relative to cfg['root'], keys prefixed by cfg['repo_prefix']) or
+        `(modpath, file, opts)` for a module taken from ANOTHER crate root: opts = dict(root=<dir>, repo_prefix=<repo-relative dir>,
+        path_rewrites=[(regex, replacement), ...]).  The rewrites (rule E0.path_rewrite, counted) are applied to the comment-stripped
+        text of that file before it is split into items; they exist to re-root paths of a dependency that is flattened into the
+        same Verus crate (`frost_core::` -> `crate::`)."""
+        return (m[0], m[1], (m[2] if len(m) > 2 else {}))
 
-    def process_file(self, relpath, modpath):
-        src, raw, repo_rel = self.read_module(relpath)
-        # per-module `use` header and entry hints (a module of another crate has its own names: no glob import of the contract vocabulary)
-        self.std_use = self.cfg.get('module_use', {}).get(modpath, STD_USE)
-        self.entry_hints = self.cfg.get('module_entry_hints', {}).get(modpath, DEFAULT_ENTRY_HINTS)
+    def read_module(self, relpath, opts):
+        path = os.path.join(opts.get('root', self.cfg['root']), relpath)
+        src = strip_comments(open(path).read())
+        for pat, repl in opts.get('path_rewrites', ()):
+            src, n = re.subn(pat, repl, src)
+            if n:
+                self.rule('E0.path_rewrite', n)
+        return src
+
+    def is_foreign(self):
+        """the module being processed comes from another crate root than the unit's own crate"""
+        return self.mod_opts.get('repo_prefix', self.cfg['repo_prefix']) != self.cfg['repo_prefix']
+
+    def process_file(self, relpath, modpath, opts=None):
+        self.mod_opts = opts or {}
+        # module opts `use` / `entry_hints`: the `use` header and the injected entry hints of this module (a module of another crate that
+        # defines its own `Identifier`, `Error`, ... aliases cannot glob-import the contract vocabulary)
+        self.std_use = self.mod_opts.get('use', STD_USE)
+        self.entry_hints = self.mod_opts.get('entry_hints', DEFAULT_ENTRY_HINTS)
+        raw = src = self.read_module(relpath, self.mod_opts)
         # inner attributes / module docs at file top
         items = split_items(src)
-        return self.process_items(items, src, raw, repo_rel, modpath)
+        return self.process_items(items, src, raw, relpath, modpath)
 
     def process_items(self, items, src, raw, relpath, modpath):
         """Returns (verus_text, plain_text): items placed inside `verus!{}` and plain-Rust items."""
         V = []   # inside verus!
         P = []   # outside
-        repo_rel = relpath      # repo-relative name of the file (process_file resolves it)
+        repo_rel = os.path.join(self.mod_opts.get('repo_prefix', self.cfg['repo_prefix']), relpath)
         for it in items:
             why = self.cfg_dropped(it.attrs)
             if why:
@@ -227,19 +279,56 @@ class Unit:
                 V.append(re.sub(r'^pub\([^)]*\)', 'pub', it.text))
                 continue
             if k == 'trait':
-                if repo_rel.startswith(self.cfg['repo_prefix'] + '/'):
-                    raise ExtractError('%s:%d: trait definition outside the prelude is not covered by the rules' % (repo_rel, it.line))
-                # a helper trait of another crate (method declarations only): kept verbatim, made public (E3)
-                b = find_block_open(it.text)
-                for sub in split_items(it.text, b + 1, find_matching(it.text, b)):
-                    if sub.kind != 'fn' or parse_fn(sub.text).has_body:
-                        raise ExtractError('%s:%d: trait %s has items other than method declarations' % (repo_rel, it.line, it.name))
-                V.append('#[verifier::allow(undeclared_external_trait)]\n' + re.sub(r'^(pub(\([^)]*\))?\s+)?', 'pub ', it.text))
-                self.rule('E0.foreign_trait_kept')
+                V.append(self.process_trait(it, repo_rel, modpath))
                 continue
             self.dropped.append((repo_rel, it.line, norm_ws(it.text)[:70], 'unclassified item'))
             self.rule('E1.other_item_dropped')
         return '\n'.join(x for x in V if x), '\n'.join(x for x in P if x)
+
+    # ------------------------------------------------------------------------------------------
+    def process_trait(self, it, repo_rel, modpath):
+        """E14: a trait definition outside the prelude whose methods have NO default bodies is emitted as it stands (made `pub`, E3).
+        A sidecar block `fn <file> :: trait <Name> :: <method>` may give the method declaration a contract (`requires`/`ensures`) and
+        trait-level spec functions (`hook_spec`); such a contract is an ASSUMPTION about every implementation outside the unit and
+        an obligation for every impl inside it (Verus checks impls against the trait contract).  Default bodies are refused."""
+        b = find_block_open(it.text)
+        e = find_matching(it.text, b)
+        hdr = it.text[:b].strip()
+        if not re.match(r'pub\b', hdr):
+            hdr = 'pub ' + hdr
+        out = []
+        for sub in split_items(it.text, b + 1, e):
+            sub.line = it.line + it.text.count('\n', 0, sub.off)
+            sub.end_line = sub.line + sub.text.count('\n')
+            if self.cfg_dropped(sub.attrs):
+                self.rule('E1.cfg_item_dropped')
+                self.dropped.append((repo_rel, sub.line, it.name + ' :: ' + norm_ws(sub.text)[:50], 'cfg'))
+                continue
+            if sub.kind != 'fn':
+                out.append('    ' + sub.text)
+                continue
+            f = parse_fn(sub.text)
+            if f.has_body:
+                raise ExtractError('%s:%d: trait %s: default method body outside the prelude is not covered by the rules' % (repo_rel, sub.line, it.name))
+            key = '%s :: trait %s :: %s' % (repo_rel, it.name, f.name)
+            c = self.contracts.get(key)
+            ctext = ''
+            retname = 'res'
+            if c is not None:
+                c.used = True
+                retname = c.ret
+                for hs in c.hook_spec:
+                    out.append('    ' + hs.strip())
+                ctext = self.contract_text(c)
+            ret = (' -> (%s: %s)' % (retname, f.ret)) if f.ret else ''
+            where = ('\n    ' + f.where) if f.where else ''
+            vname = '::'.join([x for x in [self.cfg.get('crate_name', 'unit'), modpath] if x]) + '::' + it.name + '::' + f.name
+            self.functions.append(dict(key=key, verus_name=vname, file=repo_rel, lines=[sub.line, sub.end_line], sha256_source=sha(sub.text),
+                                       sha256_emitted=sha(sub.text), mode='assumed' if c is not None else 'declared', serves=(c.serves if c else []),
+                                       rules=['E14'], contract_file=(os.path.relpath(c.file, self.cfg['verif_root']) if c else None)))
+            out.append('    /*@FN %s*/\n    %sfn %s%s(%s)%s%s%s;\n    /*@ENDFN*/' % (key, re.sub(r'\bfn\s*$', '', f.prefix), f.name, f.generics, f.params, ret, where, ctext))
+            self.rule('E14.trait_declaration')
+        return hdr + ' {\n' + '\n'.join(out) + '\n}'
 
     # ------------------------------------------------------------------------------------------
     def derives(self, attrs):
@@ -381,7 +470,7 @@ class Unit:
             ic.used = True
             V.append('\n'.join(ic.extra))
             self.rule('E11.impl_spec_items')
-        if im.trait == 'Ciphersuite' and not repo_rel.startswith(self.cfg['repo_prefix'] + '/'):
+        if im.trait == 'Ciphersuite' and self.is_foreign():
             return self.process_ciphersuite_impl(it, im, repo_rel, modpath, V)
         for sub in im.items:
             why = self.cfg_dropped(sub.attrs)
@@ -516,7 +605,7 @@ class Unit:
                         if a != b:
                             t = re.sub(r'(?<![\w.])%s\b' % re.escape(a), b, t)
                     return t
-                for cl in hc.hook_ensures + hc.call_ensures:
+                for cl in hc.hook_requires + hc.hook_ensures + hc.call_ensures:
                     inject.append((cl.kind, cl.name, adapt(cl.text)))
             free = Item(sub.attrs, deself(re.sub(r'\bfn\s+%s\b' % f.name, 'fn hook_%s' % f.name, sub.text, 1)), sub.off, sub.text)
             free.line, free.end_line = sub.line, sub.end_line
@@ -545,7 +634,7 @@ class Unit:
         c = self.contracts.get(key)
         if c is not None:
             c.used = True
-            mode = c.mode
+            mode = self.downgrade(c.mode, key)
         else:
             mode = self.cfg.get('default_mode', 'assumed')
             if key in self.cfg.get('external', ()):
@@ -564,9 +653,11 @@ class Unit:
                 mode = 'assumed'      # an explicit `mode assumed` block, or a body outside the model (elided below)
             else:
                 mode = 'verified'     # a hook without a sidecar block is still verified against the trait-level contract
-        meta = dict(key=key, verus_name=vname, file=repo_rel, lines=[it.line, it.end_line], sha256_source=sha(src_text or it.text), mode=mode,
+        meta = dict(key=key, verus_name=vname, file=repo_rel, lines=[it.line, it.end_line], sha256_source=sha(src_text or it.text), norm_sha=norm_sha(src_text or it.text), mode=mode,
                     serves=(c.serves if c else []), rules=[], contract_file=(os.path.relpath(c.file, self.cfg['verif_root']) if c else None))
         self.functions.append(meta)
+        if key in self.downgraded:
+            meta['rules'].append('E9')
         if mode == 'drop':
             self.rule('E1.fn_dropped')
             meta['sha256_emitted'] = None
@@ -612,6 +703,12 @@ class Unit:
             contract_txt = '\n    ensures /*@CL %s|ensures|transparent|%d*/ (%s == (%s)),' % (key, body.strip().count('\n'), retname, body.strip()[1:-1].strip())
             self.rule('E12.transparent_body')
             meta['rules'].append('E12')
+            if any(key.startswith(p) for p in self.cfg.get('assume_prefixes', ())):
+                # E9: checked against its own text in the unit that verifies this crate; here `res == <body>` is assumed
+                attrs.append('#[verifier::external_body]')
+                meta['mode'] = 'assumed'
+                meta['rules'].append('E9')
+                self.rule('E9.assumed_here_verified_elsewhere')
             if im is not None and im.trait and re.match(r'^From<', im.trait) and f.name == 'from':
                 src_ty = im.trait[5:-1]
                 extra = ('impl%s FromSpecImpl<%s> for %s%s { open spec fn obeys_from_spec() -> bool { true } open spec fn from_spec(%s) -> Self { %s } }'
@@ -620,14 +717,21 @@ class Unit:
             new_body = self.transform_body(body, c, key, meta, f)
         else:
             raise ExtractError('%s: unknown mode %r' % (key, mode))
-        if mode == 'transparent' and inject:
-            raise ExtractError('%s: internal: transparent hook' % key)
         params = f.params
         sig = '%sfn %s%s(%s)%s%s' % (prefix, f.name, f.generics, params, ret, where)
         out = '/*@FN %s*/\n%s%s%s\n%s\n/*@ENDFN*/' % (key, ''.join(a + '\n' for a in attrs), sig, contract_txt, new_body)
         meta['sha256_emitted'] = sha(new_body)
         meta['body_unchanged'] = (new_body == body)
         return out, '', extra
+
+    def downgrade(self, mode, key):
+        """E9: a unit may list key prefixes (`assume_prefixes`) whose functions are verified in ANOTHER unit: here they are emitted
+        `assumed` (external_body + the character-identical contract), so that callers see contracts, not bodies."""
+        if mode == 'verified' and any(key.startswith(p) for p in self.cfg.get('assume_prefixes', ())):
+            self.rule('E9.assumed_here_verified_elsewhere')
+            self.downgraded.add(key)      # its body is emitted untransformed: no outlined helpers are generated for it
+            return 'assumed'
+        return mode
 
     def transparent_body(self, f):
         if not f.has_body or not f.ret:
@@ -656,9 +760,9 @@ class Unit:
                 txt = cl.text.strip().rstrip(',')
                 parts.append('\n        /*@CL %s|%s|%s|%d*/ (%s),' % (key, cl.kind, cl.name, txt.count('\n'), txt))
         from sidecar import Clause
-        clauses('requires', c.requires if c else [])
-        # E10b: trait-level clauses of a hook (kind hook_ensures / call_ensures) are verified on the concrete suite's body
-        clauses('ensures', (c.ensures if c else []) + [Clause(k, n, t) for (k, n, t) in inject])
+        # E10b: trait-level clauses of a hook (kind hook_requires / hook_ensures / call_ensures) are assumed resp. verified on the concrete suite's body
+        clauses('requires', (c.requires if c else []) + [Clause(k, n, t) for (k, n, t) in inject if k.endswith('requires')])
+        clauses('ensures', (c.ensures if c else []) + [Clause(k, n, t) for (k, n, t) in inject if not k.endswith('requires')])
         if c and c.decreases:
             parts.append('\n    decreases %s' % c.decreases.strip())
         return ''.join(parts)
@@ -666,6 +770,16 @@ class Unit:
     # ------------------------------------------------------------------------------------------
     def transform_body(self, body, c, key, meta, f):
         t = body
+        # --- shape lock: loop/closure annotations are addressed by ordinal, so they are only trusted while the function has the
+        # number of loops and closures it had when the contract was written (contracts/shape.lock.json, dev/mklock.py).  An edit that
+        # adds or removes a loop/closure would silently shift the annotations onto other constructs: that is a lost anchor
+        # (undecided), never a verdict.
+        shape = [len(self.find_loops(t)), len(self.find_closures(t))]
+        meta['shape'] = shape
+        lock = self.shape_lock()
+        if c and (c.loops or c.closures) and lock is not None and key in lock and list(lock[key]) != shape:
+            raise ExtractError('%s: lost anchor: the function now has %d loops / %d closures, the contract was written for %d / %d'
+                               % (key, shape[0], shape[1], lock[key][0], lock[key][1]))
         # --- statement anchors are located on the pristine text and marked; the ghost text is spliced in at the very end
         anchors = []
         if c:
@@ -738,28 +852,42 @@ class Unit:
         call = o.fields.get('call')
         if call is None:
             raise ExtractError('%s: outline %s has no call' % (key, o.name))
-        holes = re.findall(r'\$(\w+)', pat)
+        holes = re.findall(r'\$\$?(\w+)', pat)
         if holes:
             # E7 with operand holes: `$x` in `expr:` matches one operand (an identifier or field path); the same `$x` in
             # `call:` is replaced by the matched text, and the helper body is the idiom with the operands renamed to the
             # helper's parameters `x`.  The assumed `ensures` is then a statement about the idiom for ARBITRARY operands, and
             # exchanging/renaming operands in the source stays decidable (it changes the call, not the assumed helper).
+            # `$$x` matches an operand EXPRESSION: optional `&`, a path, optionally one call with plain arguments, optionally `?`
+            # (`&encode_group_commitments(signing_commitments)?`); the matched text stays in the caller (so does its `?`).
             if len(set(holes)) != len(holes):
                 raise ExtractError('%s: outline %s: a hole may occur only once in expr' % (key, o.name))
             rx = re.escape(pat)
             for h in sorted(holes, key=len, reverse=True):
-                rx = rx.replace(re.escape('$' + h), r'(?P<%s>[A-Za-z_][\w.]*|\d+)' % h, 1)      # an operand: identifier / field path / integer literal
+                if ('$$' + h) in pat:
+                    rx = rx.replace(re.escape('$$' + h), r'(?P<%s>&?[A-Za-z_][\w.:]*(?:\([\w.:,&*]*\))?\??)' % h, 1)
+                else:
+                    rx = rx.replace(re.escape('$' + h), r'(?P<%s>[A-Za-z_][\w.]*|\d+)' % h, 1)      # an operand: identifier / field path / integer literal
             m = re.search(rx, flat)
             if not m or (idx[m.start()] > 0 and (t[idx[m.start()] - 1].isalnum() or t[idx[m.start()] - 1] in '_.')):
+                if o.fields.get('optional'):
+                    # `optional: yes`: the idiom is absent, nothing is outlined and nothing assumed; the body is verified as it stands
+                    o.skipped = True
+                    self.rule('E7.optional_outline_absent')
+                    return t
                 raise ExtractError('%s: lost anchor: outlined expression `%s` not found' % (key, norm_ws(expr)[:80]))
             p, plen = m.start(), m.end() - m.start()
             for h in sorted(holes, key=len, reverse=True):
-                call = call.replace('$' + h, m.group(h))
-            o.body = re.sub(r'\$(\w+)', r'\1', expr)
+                call = call.replace('$$' + h, m.group(h)).replace('$' + h, m.group(h))
+            o.body = re.sub(r'\$\$?(\w+)', r'\1', expr)
             self.rule('E7.outlined_idiom_operand_holes')
         else:
             p, plen = flat.find(pat), len(pat)
             if p < 0:
+                if o.fields.get('optional'):
+                    o.skipped = True
+                    self.rule('E7.optional_outline_absent')
+                    return t
                 raise ExtractError('%s: lost anchor: outlined expression `%s` not found' % (key, norm_ws(expr)[:80]))
         a, b = idx[p], idx[p + plen - 1] + 1
         self.rule('E7.outlined_idiom')
@@ -770,6 +898,8 @@ class Unit:
     def outline_items(self, c):
         out = []
         for o in c.outlines:
+            if getattr(o, 'skipped', False):
+                continue
             sig = o.fields.get('sig', '').strip()
             req = o.fields.get('requires')
             ens = o.fields.get('ensures')
@@ -942,6 +1072,12 @@ class Unit:
             s0 += 1
         return s0
 
+    def shape_lock(self):
+        if not hasattr(self, '_shape_lock'):
+            path = self.cfg.get('shape_lock')
+            self._shape_lock = json.load(open(path)) if path and os.path.exists(path) else None
+        return self._shape_lock
+
     def find_loops(self, t):
         """positions of loop keywords (for/while/loop) in statement position, in source order"""
         res = []
@@ -949,10 +1085,9 @@ class Unit:
         n = len(t)
         while i < n:
             ch = t[i]
-            if ch == '/' and t.startswith('/*', i):
-                # clause markers `/*@CL key|..*/` injected by earlier steps (a key may contain the word `for`: `EvenY for KeyPackage`)
-                j = t.find('*/', i + 2)
-                i = n if j < 0 else j + 2
+            if t.startswith('/*@', i):
+                # clause markers injected by earlier passes carry the function key, which may contain `for` (`Trait for Type`)
+                i = t.index('*/', i) + 2
                 continue
             if ch in '"\'br':
                 e = skip_literal(t, i)
@@ -1238,7 +1373,7 @@ class Unit:
             gen = f.generics
             gen2 = '<C: Ciphersuite' + ((', ' + gen[1:-1]) if gen else '') + '>'
             dkey = key
-            mode = c.mode if c else cfg.get('default_mode', 'assumed')
+            mode = self.downgrade(c.mode, key) if c else cfg.get('default_mode', 'assumed')
             meta = dict(key=dkey, verus_name=cfg.get('crate_name', 'unit') + '::traits_defaults::default_' + f.name, file=repo_rel, lines=[sub.line, sub.end_line], sha256_source=sha(sub.text), mode=mode,
                         serves=(c.serves if c else []), rules=['E10'], contract_file=(os.path.relpath(c.file, cfg['verif_root']) if c else None))
             self.functions.append(meta)
@@ -1274,18 +1409,21 @@ class Unit:
         cfg = self.cfg
         out = []
         out.append(cfg.get('header', ''))
-        out.append(VPREL)
+        # `vprel_extra`: further `pub use` lines for the glob-imported name module (types / spec modules a unit adds)
+        out.append(VPREL.replace('\n}\n', '\n' + cfg.get('vprel_extra', '') + '\n}\n') if cfg.get('vprel_extra') else VPREL)
         # prelude (crate root level text, already containing its own verus! blocks)
         for p in cfg.get('prelude_files', []):
             out.append('// ===== prelude: %s =====' % p)
-            out.append(self.read_verif_file(p))
+            lt = self.read_verif_file(p)
+            out.append(lemma_canary(lt) if cfg.get('lemma_canary') and p.startswith('lemmas/') else lt)
         if cfg.get('traits_file'):
             out.append('// ===== traits (prelude + E10) =====')
             out.append(self.process_traits())
         # pre-pass (E2): types whose derived PartialEq cannot be given a spec (contain Vec/BTreeMap/BTreeSet, transitively)
         structs = {}
-        for modpath, rel in cfg['modules']:
-            src0 = self.read_module(rel)[0]
+        mods = [self.module_entry(m) for m in cfg['modules']]
+        for modpath, rel, opts in mods:
+            src0 = strip_comments(open(os.path.join(opts.get('root', cfg['root']), rel)).read())
             for m in re.finditer(r'\bstruct\s+(\w+)[^;{]*?(\{[^}]*\}|\([^;]*\)\s*(?:where[^;]*)?;)', src0, re.S):
                 structs.setdefault(m.group(1), '')
                 structs[m.group(1)] += m.group(2)
@@ -1300,14 +1438,16 @@ class Unit:
         self.noeq = noeq
         # module tree
         tree = {}
-        for modpath, rel in cfg['modules']:
-            v, p = self.process_file(rel, modpath)
+        for modpath, rel, opts in mods:
+            v, p = self.process_file(rel, modpath, opts)
             tree[modpath] = (v, p)
         # outlined helpers + extra go to the crate root `vhelpers`? -> emitted in the module of their function (handled inline)
 
+        mod_use = dict((mp, o.get('use')) for mp, _, o in mods if o.get('use'))
+
         def emit_mod(modpath, depth):
             v, p = tree[modpath]
-            STD_USE = cfg.get('module_use', {}).get(modpath, globals()['STD_USE'])
+            STD_USE = mod_use.get(modpath, globals()['STD_USE'])
             children = [m for m in tree if m and (m.rsplit('::', 1)[0] if '::' in m else '') == modpath and m != modpath]
             s = ''
             if modpath:
@@ -1322,16 +1462,17 @@ class Unit:
         out.append('// ===== extracted crate =====')
         out.append(emit_mod('', 0))
         # outlined helper functions
-        helpers = [self.outline_items(c) for c in self.contracts.values() if c.used and c.outlines]
+        helpers = [self.outline_items(c) for c in self.contracts.values() if c.used and c.outlines and c.key not in self.downgraded]
         if helpers:
             out.append('pub mod voutl {\n' + STD_USE + '\n#[allow(unused_imports)] use crate::*;\nverus! {\n' + '\n'.join(helpers) + '\n} // verus!\n}')
         for p in cfg.get('postlude_files', []):
             out.append('// ===== postlude: %s =====' % p)
-            out.append(self.read_verif_file(p))
+            lt = self.read_verif_file(p)
+            out.append(lemma_canary(lt) if cfg.get('lemma_canary') else lt)
         out.append('fn main() {}')
         text = '\n'.join(out)
-        prefixes = tuple([cfg['repo_prefix']] + list(cfg.get('foreign_prefixes', ())))
-        unused = [c.key for c in self.contracts.values() if not c.used and re.sub(r'^impl ', '', c.key).startswith(prefixes)]
+        prefixes = [cfg['repo_prefix']] + [o['repo_prefix'] for _, _, o in mods if o.get('repo_prefix')]
+        unused = [c.key for c in self.contracts.values() if not c.used and any(re.sub(r'^impl ', '', c.key).startswith(p) for p in prefixes)]
         if unused:
             raise ExtractError('lost anchor: sidecar blocks without a matching function: ' + '; '.join(unused))
         return text
